@@ -133,8 +133,7 @@ theorem overlapping_reported (g : Cfg) (i : Nat) (hi : i < g.nodes.size) (l : W 
     (hn : (g.get i).funcs.length > 1) (he : (g.get i).funcs.contains i = true)
     (hl : (g.get i).labels = l :: ls) :
     ∃ x ∈ lintOverlapping g, x.code = "node-in-many-functions" ∧ x.range = l.tok.range ∧ x.file = l.tok.file := by
-  refine ⟨lintDiag "NodeInManyFunctions" l.tok.range l.tok.file l.tok.text
-      (if (g.get i).labels.length > 1 then (g.get i).labels.map fun a => (a.tok.range, a.tok.file) else []), ?_,
+  refine ⟨lintDiag "NodeInManyFunctions" l.tok.range l.tok.file l.tok.text, ?_,
       code_of _ _ _ _ _ _ (by decide), rfl, rfl⟩
   unfold lintOverlapping
   rw [List.mem_filterMap]
